@@ -6,6 +6,12 @@
 // stdin:  one sequence per line:  <id> <txn>:<ttl>:<commit>:<action>,...
 // stdout: <id> <ttl>.<commit>.<action>.<rpc sent 0/1>.<cacheable 0/1>.<committed 0/1>.<rolledback 0/1>,...
 // The extracted Coq model (SI.Model.get_txn_status) must predict every field.
+//
+// Mode L (getTxnStatusFromLock, the loop around it): a line  L <id> <call>,<call>,...  with
+//   call = <txn>;<pess 0/1>;<ttl ms>;<answer>/<answer>/...   answer = <ttl>:<commit>:<action> | nf (TxnNotFound)
+// runs the calls on ONE resolver; the lock's start ts is `age` ms (10 s) in the past on the store's oracle. Answer line:
+//   L <id> <result>|<request>/<request>...,...   result = <ttl>.<commit>.<action> | err ; request = <rollback_if_not_exist>.<current_ts is max>.<resolving_pessimistic_lock>
+// (a call whose script runs out gets an error answer from the wrapper and reports err).
 package main
 
 import (
@@ -19,24 +25,46 @@ import (
 	"time"
 
 	"github.com/pingcap/kvproto/pkg/kvrpcpb"
+	"github.com/pingcap/log"
+	"github.com/tikv/client-go/v2/oracle"
 	"github.com/tikv/client-go/v2/testutils"
 	"github.com/tikv/client-go/v2/tikv"
 	"github.com/tikv/client-go/v2/tikvrpc"
 	"github.com/tikv/client-go/v2/txnkv/txnlock"
+	"go.uber.org/zap"
+	"go.uber.org/zap/zapcore"
 )
 
 type script struct {
 	ttl, commit uint64
 	action      int32
+	notFound    bool
 }
 
 type gate struct {
 	tikv.Client
 	cur  atomic.Pointer[script]
 	rpcs atomic.Int64
+	// mode L
+	modeL bool
+	queue []script
+	reqs  []string
 }
 
 func (g *gate) SendRequest(ctx context.Context, addr string, req *tikvrpc.Request, timeout time.Duration) (*tikvrpc.Response, error) {
+	if req.Type == tikvrpc.CmdCheckTxnStatus && g.modeL {
+		r := req.CheckTxnStatus()
+		g.reqs = append(g.reqs, fmt.Sprintf("%d.%d.%d", b(r.RollbackIfNotExist), b(r.CurrentTs == ^uint64(0)), b(r.ResolvingPessimisticLock)))
+		if len(g.queue) == 0 {
+			return nil, fmt.Errorf("script-end")
+		}
+		s := g.queue[0]
+		g.queue = g.queue[1:]
+		if s.notFound {
+			return &tikvrpc.Response{Resp: &kvrpcpb.CheckTxnStatusResponse{Error: &kvrpcpb.KeyError{TxnNotFound: &kvrpcpb.TxnNotFound{StartTs: r.LockTs, PrimaryKey: r.PrimaryKey}}}}, nil
+		}
+		return &tikvrpc.Response{Resp: &kvrpcpb.CheckTxnStatusResponse{LockTtl: s.ttl, CommitVersion: s.commit, Action: kvrpcpb.Action(s.action)}}, nil
+	}
 	if req.Type == tikvrpc.CmdCheckTxnStatus {
 		g.rpcs.Add(1)
 		s := g.cur.Load()
@@ -52,7 +80,72 @@ func b(x bool) int {
 	return 0
 }
 
+const ageMs = 10000
+
+func modeL(g *gate, probe tikv.StoreProbe, store *tikv.KVStore, calls string) string {
+	g.modeL = true
+	defer func() { g.modeL = false }()
+	lr := probe.NewLockResolver()
+	var res []string
+	now, err := store.GetOracle().GetTimestamp(context.Background(), &oracle.Option{TxnScope: oracle.GlobalTxnScope})
+	if err != nil {
+		panic(err)
+	}
+	for _, call := range strings.Split(calls, ",") {
+		p := strings.Split(call, ";")
+		txn, _ := strconv.ParseUint(p[0], 10, 64)
+		ttl, _ := strconv.ParseUint(p[2], 10, 64)
+		g.queue, g.reqs = nil, nil
+		if p[3] != "-" {
+			for _, a := range strings.Split(p[3], "/") {
+				if a == "nf" {
+					g.queue = append(g.queue, script{notFound: true})
+					continue
+				}
+				q := strings.Split(a, ":")
+				t, _ := strconv.ParseUint(q[0], 10, 64)
+				c, _ := strconv.ParseUint(q[1], 10, 64)
+				ac, _ := strconv.ParseInt(q[2], 10, 32)
+				g.queue = append(g.queue, script{ttl: t, commit: c, action: int32(ac)})
+			}
+		}
+		// distinct transactions: the id goes into the logical bits of a start ts `ageMs` in the past
+		startTS := oracle.ComposeTS(oracle.ExtractPhysical(now)-ageMs, int64(txn))
+		lt := kvrpcpb.Op_Put
+		if p[1] == "1" {
+			lt = kvrpcpb.Op_PessimisticLock
+		}
+		lock := &txnlock.Lock{Key: []byte("k2"), Primary: []byte("k"), TxnID: startTS, TTL: ttl, LockType: lt}
+		bo := tikv.NewBackofferWithVars(context.Background(), 3000, nil)
+		var st txnlock.TxnStatus
+		done := make(chan struct{})
+		go func() {
+			defer close(done)
+			defer func() {
+				if r := recover(); r != nil {
+					err = fmt.Errorf("panic:%v", r)
+				}
+			}()
+			st, err = lr.GetTxnStatusFromLock(bo, lock, 100, false)
+		}()
+		select {
+		case <-done:
+		case <-time.After(8 * time.Second):
+			// the resolver is stuck in this call (or loops): report and give up on the sequence
+			return strings.Join(append(res, "hang|"+strings.Join(g.reqs[:min(len(g.reqs), 8)], "/")), ",")
+		}
+		r := "err"
+		if err == nil {
+			r = fmt.Sprintf("%d.%d.%d", st.TTL(), st.CommitTS(), int(st.Action()))
+		}
+		res = append(res, r+"|"+strings.Join(g.reqs, "/"))
+	}
+	return strings.Join(res, ",")
+}
+
 func main() {
+	// the client logs to stdout; a log line written between two flushes of `out` would cut one of our lines in two
+	log.ReplaceGlobals(zap.NewNop(), &log.ZapProperties{Level: zap.NewAtomicLevelAt(zapcore.FatalLevel)})
 	client, cluster, pdClient, err := testutils.NewMockTiKV("", nil)
 	if err != nil {
 		panic(err)
@@ -71,6 +164,10 @@ func main() {
 	defer out.Flush()
 	for in.Scan() {
 		f := strings.Fields(in.Text())
+		if len(f) == 3 && f[0] == "L" {
+			fmt.Fprintf(out, "L %s %s\n", f[1], modeL(g, probe, store, f[2]))
+			continue
+		}
 		if len(f) != 2 {
 			continue
 		}
